@@ -278,6 +278,71 @@ def long_count_session(col, binpath, vmon, rng, tag, scratch, n_msgs):
         sess.close()
 
 
+def crowd_session(col, binpath, vmon, rng, tag, scratch):
+    """More aircraft than the table has rows: the rows are collected while the selection is moved
+    down through the whole list (the table scrolls with it); every aircraft must appear with exactly
+    the tracker's data, and nothing else may appear."""
+    lat, lon = rng.choice([(52.0, 4.0), (-33.9, 151.2), (35.0, 179.5)])
+    n = rng.choice([70, 95, 130])
+    lines = traffic(rng, n, lat, lon) + [sentinel_line(0)]
+    sim = feedsim(vmon, lines, lat, lon, scratch, False)
+    plan = [("send", b"".join(lines)), ("mark", "feed_done"), ("sleep", 240)]
+    opts = ["--filter-time", "100000"]
+    sess = session.RadarSession(binpath, plan, lat=lat, lon=lon, opts=opts, rows=60, cols=200, scratch=scratch)
+    inp = {"receiver": [lat, lon], "options": opts, "aircraft": sim["len"], "lines": [l.decode() for l in lines], "tag": tag}
+    try:
+        sess.wait_connected()
+        sess.key("F3")
+        end = time.monotonic() + 60 + len(lines) / 40
+        while time.monotonic() < end and sess.tab_title_count() != sim["len"]:
+            sess.p.pump(0.2)
+            if not sess.p.alive():
+                raise Inconclusive("radar gone")
+        sess.settle(0.5, 5.0)
+        col.count("crowd_sessions")
+        col.cls(f"crowd|n={n}")
+        tc = sess.tab_title_count()
+        if tc != sim["len"]:
+            col.add("C18", "C18|tab_title_count|crowd", f"tab title says {tc} aircraft, the tracker holds {sim['len']}", inp)
+            return
+        seen = {}
+        first = sess.airplanes_rows()
+        if first is None:
+            raise Inconclusive("Airplanes table not on screen")
+        for step in range(sim["len"] + 3):
+            rows = sess.airplanes_rows()
+            if rows is None:
+                if not sess.p.alive():
+                    raise Inconclusive("radar gone")
+                raise Inconclusive("Airplanes table lost while scrolling")
+            for r in rows:
+                seen.setdefault(r["icao"], []).append(r)
+            sess.key("Down")
+            sess.p.settle(0.06, 1.5)
+        col.count("rows_compared", len(sim["rows"]))
+        col.count("scroll_steps", sim["len"] + 3)
+        want = {r["icao"]: r for r in sim["rows"]}
+        bad = []
+        if set(seen) != set(want):
+            bad.append(f"never shown while scrolling through the list: {sorted(set(want) - set(seen))[:6]}; shown but not tracked: {sorted(set(seen) - set(want))[:6]}")
+        for k, w in want.items():
+            for obs in seen.get(k, []):
+                diff = [f for f in ["callsign", "lat", "lon", "heading", "alt", "fpm", "speed", "dist", "msgs"] if obs[f] != w[f]]
+                if diff:
+                    bad.append(f"{k}.{diff[0]}: screen {obs[diff[0]]!r}, tracker {w[diff[0]]!r}")
+                    break
+        if bad:
+            field = bad[0].split(":")[0].split(".")[-1] if "." in bad[0].split(":")[0] else "set"
+            col.add("C18", f"C18|airplanes_tab_differs_from_tracker|crowd|{field}", "; ".join(bad[:6]), inp)
+    except Inconclusive:
+        if sess.p.alive():
+            raise
+        col.add("C17", f"C17|terminated_before_quit|{sess.panic_location()}", "radar died during a C18 session", inp)
+        col.add("C18", f"C18|radar_died_while_showing_data|{sess.panic_location()}", "radar terminated during a session: nothing is shown any more", inp)
+    finally:
+        sess.close()
+
+
 def stats_expiry_session(col, binpath, rng, tag, scratch):
     """Aircraft expire and come back: Total counts every (re-)add, Most the largest simultaneous count.
     Event driven (title counts), so a slow machine only makes it slower."""
@@ -505,12 +570,14 @@ def main(a, lcol, col, run_all, scratch, START):
     # long sessions first (they take the longest): 4-digit counts in the quick tier, 5-digit in thorough
     for i, n_msgs in enumerate([1003 + 7 * (a.seed % 50), 10_007 + 11 * (a.seed % 50)] if thorough else [1003 + 7 * (a.seed % 50)]):
         jobs.insert(0, (f"long#{i}", lambda rng, i=i, n_msgs=n_msgs: long_count_session(lcol, a.bin, a.vmon, rng, f"long#{i}", scratch, n_msgs)))
+    for i in range(12 if thorough else 2):
+        jobs.insert(0, (f"crowd#{i}", lambda rng, i=i: crowd_session(lcol, a.bin, a.vmon, rng, f"crowd#{i}", scratch)))
     run_all(jobs)
     ev = col.counters.get("rows_compared", 0) + col.counters.get("stats_compared", 0) + col.counters.get("view_control_sequences", 0) + col.counters.get("map_sessions", 0) * 8 + col.counters.get("expiry_sessions", 0)
-    distinct = col.counters.get("data_sessions", 0) + col.counters.get("long_count_sessions", 0) + col.counters.get("map_sessions", 0) + col.counters.get("expiry_sessions", 0)
+    distinct = col.counters.get("data_sessions", 0) + col.counters.get("long_count_sessions", 0) + col.counters.get("crowd_sessions", 0) + col.counters.get("map_sessions", 0) + col.counters.get("expiry_sessions", 0)
     col.sample({"data_session": "20 aircraft in four quadrants with identification/velocity/position (some one parity only); all 10 columns of every Airplanes row == library run on the same lines; tab title; Stats totals; 1-40 view-control events then rows unchanged"})
     col.sample({"map_session": "8 aircraft due N/E/S/W at d and 2d km; blue braille cells relative to the axis crossing: direction, 2:1 proportion, E/W and N/S symmetry, receiver at the canvas centre, the same picture scaled after three zoom-outs and after five zoom-ins, reset restores the cells"})
     return vlib.finish(col, "C18", a.tier, a.seed, "exploration",
-        "radar on a 200x60 pseudo-terminal fed by a scripted server: (a) data sessions: the reconstructed Airplanes table (address, callsign, lat, lon, heading, altitude, rate, speed, distance, message count; blanks without a position) == rows computed by the repository's library on the same recorded lines (vmon feedsim), tab title count, Stats 'Total'/'Most'; then 1-40 zoom/pan/reset/drag/scroll events and the table again; (b) expiry sessions (--filter-time 2): aircraft expire and return, Total = number of (re-)adds, Most = largest simultaneous count; (c) long sessions: one aircraft heard 1003+ (quick) / 10007+ (thorough) times, Msgs column exact; (d) map sessions: aircraft due N/E/S/W at d and 2d: direction, proportion, symmetry, centre, reset; distinct_nontrivial = sessions (each a distinct seeded feed)",
+        "radar on a 200x60 pseudo-terminal fed by a scripted server: (a) data sessions: the reconstructed Airplanes table (address, callsign, lat, lon, heading, altitude, rate, speed, distance, message count; blanks without a position) == rows computed by the repository's library on the same recorded lines (vmon feedsim), tab title count, Stats 'Total'/'Most'; then 1-40 zoom/pan/reset/drag/scroll events and the table again; (b) expiry sessions (--filter-time 2): aircraft expire and return, Total = number of (re-)adds, Most = largest simultaneous count; (c) long sessions: one aircraft heard 1003+ (quick) / 10007+ (thorough) times, Msgs column exact; (c') crowded sessions: 70-130 aircraft on a 60-row terminal, rows collected while the selection moves down through the list; (d) map sessions: aircraft due N/E/S/W at d and 2d: direction, proportion, symmetry, centre, reset; distinct_nontrivial = sessions (each a distinct seeded feed)",
         ["screen reconstruction by a minimal VT model; aircraft dots are the blue (38;5;4) braille cells with --disable-heading", "one-cell tolerance for direction/symmetry, two cells for the 2:1 proportion"],
         a.verif, START, ev, distinct, min_evaluations=20)
